@@ -1,6 +1,19 @@
 --------------------------- MODULE MCGaussOracle ---------------------------
-(* C09: constants of GaussOracle (sequences cannot be written in a cfg) *)
-EXTENDS GaussOracle
+(***************************************************************************)
+(* C09: constants of GaussOracle, and its T binding to                     *)
+(* src/nutils/element.py.  For every configuration the harness builds the  *)
+(* real reference (with_children / trim on the simplex and tensor          *)
+(* references) and exports (env VF_TABLE, JSON: [cfg, pieces, skip]) its   *)
+(* own decomposition, the way getpoints walks it: WithChildrenReference -> *)
+(* its non-empty children under their child transforms, MosaicReference -> *)
+(* its simplices under simplex_transforms, simplex / tensor references ->  *)
+(* themselves; every leaf with its exact dyadic affine map to the          *)
+(* coordinates of the outermost reference.  TLC decides in every state     *)
+(* that the exported pieces tile exactly the region the model assigns to   *)
+(* the configuration: no degenerate piece, equal volume, equal integrals   *)
+(* of all monomials up to degree InvDeg (exact rational arithmetic).       *)
+(***************************************************************************)
+EXTENDS GaussOracle, IOUtils
 MCRefs1 == {<<1>>, <<2>>, <<1, 1>>}
 MCRefs2 == {<<1>>, <<2>>, <<3>>, <<1, 1>>, <<1, 2>>, <<2, 1>>, <<1, 1, 1>>}
 MCTrim2 == {<<1>>, <<2>>, <<1, 1>>}
@@ -9,4 +22,20 @@ MCLevels1 == {1}
 MCLevels2 == {1, 2}
 MCRefine0 == {0}
 MCRefine01 == {0, 1}
+
+Table == JsonDeserialize(IOEnv.VF_TABLE)
+Rows == {k \in 1..Len(Table) : Table[k].cfg = cfg}
+Exported(k) == [j \in 1..Len(Table[k].pieces) |-> MkPiece(Table[k].pieces[j].d, Table[k].pieces[j].F, 1)]
+Zero(n) == [c \in 1..n |-> 0]
+Verdict ==
+    IF Rows = {} THEN "no-row"
+    ELSE LET k == CHOOSE r \in Rows : TRUE
+             X == Exported(k)
+         IN IF Table[k].skip # "" THEN "skipped"
+            ELSE IF \E j \in 1..Len(X) : Det(X[j].F.A, X[j].F.n) = 0 THEN "degenerate-piece"
+            ELSE IF RegionValue(X, Zero(NDims(cfg.d))) # RegionValue(Region(cfg), Zero(NDims(cfg.d))) THEN "volume-differs"
+            ELSE IF \E e \in LowExps(cfg.d) : RegionValue(X, e) # RegionValue(Region(cfg), e) THEN "moments-differ"
+            ELSE "ok"
+\* always TRUE; prints the verdict of every configuration
+Decomposition == Emit([tab |-> cfg, v |-> Verdict])
 =============================================================================
